@@ -284,6 +284,9 @@ func (c *Ctx) accesses(f *core.Func, fields map[*types.Var]string) []access {
 			a.prot = "chan"
 		case namedTypeName(v.Type()) == "atomic.Value":
 			a.prot = "atomic.Value"
+		case strings.HasPrefix(namedTypeName(v.Type()), "atomic.") && v.Type().String() != "sync/atomic.Value":
+			// atomic.Uint32, atomic.Int64, atomic.Bool, atomic.Pointer[T]: every access is a method of the type
+			a.prot = "atomic"
 		case namedTypeName(v.Type()) == "sync.Mutex":
 			a.prot = "mutex-itself"
 		default:
